@@ -20,7 +20,7 @@ func vfEstUF(p *tinyLFU, key uint64) int64 {
 func vfArbPolicy(n int) (*defaultPolicy[vfVal], []uint64, []int64) {
 	maxCost := vfI64("maxCost")
 	vfAssume(maxCost > 0 && maxCost <= vfMaxCostBound)
-	p := &defaultPolicy[vfVal]{admit: nil, evict: newSampledLFU(maxCost)}
+	p := &defaultPolicy[vfVal]{admit: newTinyLFU(4), evict: newSampledLFU(maxCost)}
 	keys := make([]uint64, n)
 	costs := make([]int64, n)
 	for i := 0; i < n; i++ {
